@@ -89,6 +89,20 @@ CHECKS = {
             'sub-chain of the three shipped layouts through from_connectivity; each circuit as built, unrolled and flattened: every measurement deterministic (peek_z), the record equal to the '
             'protocol model per qubit in time order, (d-1)(cycles+1) detectors, one observable, detector_error_model() succeeds.',
             'finite input box; Stim trusted as executor; protocol model mc/ref/protocol.py'),
+    'C10': (EX, '4/C10', 'exhaustive enumeration of constructor inputs x duration configurations, overlap sweep',
+            'Chain and simplified repetition-code constructors, layout sub-chains and calibration circuits x every assignment of {1,2,3} (thorough {0.5,1,2,3.5}) to (readout, microwave, flux, reset) - every '
+            'strict order and tie pattern of the four lengths; each circuit is constructed, unrolled and timed inside the override and swept per qubit channel for overlapping operations of non-zero length.',
+            'finite input box and duration grid; continuous durations are covered on the grid only'),
+    'C13': (EX, '4/C13', 'exhaustive enumeration of rounds lists x distances: experiment circuit vs index kernel vs reference layout',
+            'All lists of distinct round counts from {0..4} (distance 2) and {0..3} (distance 3) in any order x three state patterns: the multi-round circuit is constructed and, per ancilla, the indices tagged '
+            'heralded / parity / final are compared with the kernel\'s heralded / stabilizer+projected / calibration indices (experiment_repetitions = 1), with the cycle length, and both with the reference layout; '
+            'the only accepted difference is the 0-round slot.',
+            'finite input box; reference layout mc/ref/kernel.py'),
+    'C14': (EX, '4/C14', 'exhaustive enumeration of exported circuits x noise-settings grid vs reference noise formula',
+            'Exported Stim circuits of all relation-free programs of length <= 2 over the supported kinds (with repeated blocks) and repetition-code circuits x 54 settings (three T1/T2 pairs incl. the clamp case, '
+            'three assignment errors, per-qubit override, two duration tables, three index maps): stripping noise returns the flattened input, probabilities in range, per-qubit assignment errors, and the '
+            'idling channel before/after every TICK-delimited block equals the T1/T2 formula for half the longest configured duration.',
+            'finite circuit space and settings grid; reference formula mc/ref/noise.py'),
 }
 
 
@@ -107,8 +121,7 @@ def main():
             'technique': technique,
         })
     all_props = ['C%02d' % i for i in range(1, 20)]
-    na = [{'property_id': p, 'reason': 'check not built yet in this session (planned: bounded exhaustive exploration, see DESIGN.md section 4)'}
-          for p in all_props if p not in CHECKS]
+    na = [{'property_id': p, 'reason': 'no check registered'} for p in all_props if p not in CHECKS]
     man = {
         'version': 1,
         'setup_cmd': './check selftest',
